@@ -56,7 +56,9 @@ RULE = ("one family = one image pair 5..12 x 7..16 (integer radiometry, masks wi
         "per-pixel grids inside J with min <= max, I again as constant grids (through a GeoTIFF + add_disparity for a "
         "share); every family is run without and (for 60%) with cbca aggregation, then WTA, then refinement. One "
         "evaluation = one comparison of two real runs (a volume pair, an axis pair, a disparity-map pair) or one "
-        "pipeline run; non-trivial when the compared volumes hold both NaN and finite costs and the two intervals "
+        "pipeline run (matching cost, optional cbca, WTA, then either one of the fixed shapes refinement/filter/validation/"
+        "filter.last/refinement.last or a free tail of 0..5 refinement / filter / validation steps in any order with "
+        "suffixed repetitions; scalar interval or per-pixel grids; the left products are observed after every step); non-trivial when the compared volumes hold both NaN and finite costs and the two intervals "
         "differ; distinct by (relation, measure, window, subpix, aggregation, the two intervals, image hash)")
 ASSUMES = [
     "integer radiometry and integer disparity grids (exact domain of the C02 correspondence); both images have the "
@@ -545,6 +547,7 @@ def observing_machine():
 
     m = PandoraMachine()
     m.snaps = []
+    m.rsnaps = []
     for kind in POST_KINDS:
         cb = kind + "_run"
         orig = getattr(m, cb)
@@ -553,25 +556,30 @@ def observing_machine():
             res = _orig(cfg, input_step)
             ld = _m.left_disparity
             _m.snaps.append((input_step, ld["disparity_map"].data.copy(), ld["validity_mask"].data.copy()))
+            rd = _m.right_disparity
+            if rd is not None and "disparity_map" in rd and "validity_mask" in rd:
+                _m.rsnaps.append((input_step, rd["disparity_map"].data.copy(), rd["validity_mask"].data.copy()))
             return res
 
         setattr(m, cb, wrapper)
     return m
 
 
-def check_snapshots(ctx, pc, names, snaps, dmin, dmax, gmin, gmax, fam):
-    """the invariant of C09_step_preserves_interval after every step, the per-pixel clause where it applies"""
+def check_snapshots(ctx, pc, names, snaps, dmin, dmax, gmin, gmax, fam, side="left"):
+    """the invariant of C09_step_preserves_interval after every step, the per-pixel clause where it applies.
+    side = "right": the right products (cross_checking_accurate), whose steps are the same functions applied to the
+    right map with the left one as reference: the same theorems with the interval [-dmax, -dmin] of the right volume"""
     gmin, gmax = np.array(gmin, dtype=np.float64), np.array(gmax, dtype=np.float64)
     prev = None
     for step, d, vm in snaps:
-        kind = step.split(".")[0]
-        ctx.count("pipeline_states_checked")
+        kind = ("right_" if side == "right" else "") + step.split(".")[0]
+        ctx.count("pipeline_states_checked" if side == "left" else "pipeline_right_states_checked")
         valid = (vm & INVALID_BITS) == 0
         with np.errstate(invalid="ignore"):
             inside = np.isfinite(d) & (d >= dmin) & (d <= dmax)
         out = valid & ~inside
         head = (f"pipeline {names} ({fam['measure']}, subpix {fam['subpix']}) on {fam['rows']}x{fam['cols']}, interval "
-                f"[{dmin},{dmax}]: after step '{step}' ")
+                f"[{dmin},{dmax}]: {side} products after step '{step}' ")
         if out.any():
             r, c = [int(x) for x in np.argwhere(out)[0]]
             ctx.violation("step_leaves_interval_" + kind,
@@ -581,7 +589,7 @@ def check_snapshots(ctx, pc, names, snaps, dmin, dmax, gmin, gmax, fam):
             r, c = [int(x) for x in np.argwhere(both)[0]]
             ctx.violation("occlusion_and_mismatch_" + kind, head + f"pixel ({r},{c}) carries both bit 8 and bit 9 "
                           f"(flags {int(vm[r, c])})", pc)
-        if kind == "disparity" or (kind == "refinement" and prev == "disparity"):
+        if side == "left" and (kind == "disparity" or (kind == "refinement" and prev == "disparity")):
             with np.errstate(invalid="ignore"):
                 own = valid & ~((d >= gmin) & (d <= gmax))
             ctx.count("pipeline_own_interval_checked")
@@ -628,6 +636,8 @@ def run_pipeline_case(ctx, pc):
              if valid.any() and len(names) > 2 else None)
     ctx.count("pipeline_valid_pixels", int(valid.sum()))
     check_snapshots(ctx, pc, names, machine.snaps, dmin, dmax, gmin, gmax, fam)
+    if machine.rsnaps:
+        check_snapshots(ctx, pc, names, machine.rsnaps, -dmax, -dmin, gmin, gmax, fam, side="right")
     iv = [float(x) for x in l["disparity_interval"].data]
     if iv != [float(dmin), float(dmax)]:
         ctx.violation("stored_interval", f"pipeline {names}: stored disparity_interval {iv}, requested [{dmin},{dmax}]", pc)
@@ -683,6 +693,6 @@ def run(ctx):
         for pc in json.load(open(corpus)):
             ctx.count("corpus_pipelines")
             run_pipeline_case(ctx, pc)
-    for i in range(44 if quick else 4000):
+    for i in range(44 if quick else 3000):
         run_pipeline_case(ctx, gen_pipeline_case(rng, free=(i % 2 == 1)))
     ctx.stats["model_calls"] = model.calls
